@@ -28,7 +28,9 @@ Fixpoint value_eqb (a b : value) {struct a} : bool :=
        | _, _ => false
        end) x y
   | VStruct x sx, VStruct y sy =>
-    list_eqb (fun a b => String.eqb (fst a) (fst b) && (snd a =? snd b)) sx sy &&
+    (* recorded sizes are compared for the fields that occupy bytes (zero-size entries may be absent) *)
+    list_eqb (fun a b => String.eqb (fst a) (fst b) && (snd a =? snd b))
+             (filter (fun p => negb (snd p =? 0)) sx) (filter (fun p => negb (snd p =? 0)) sy) &&
     (fix go (l1 l2 : list (string * value)) : bool :=
        match l1, l2 with
        | [], [] => true
